@@ -48,15 +48,21 @@ def write_inputs(d, case):
         poses = [U(p, (4, 4)) for p in tr["poses"]]
         stamps = [unhex(x) for x in tr["stamps"]]
         name = "ref" if tr.get("is_ref") else "t%d" % k
+        base = d
+        if case.get("same_names") and not tr.get("is_ref"):
+            # one directory per run, every file with the reference's base name (only used together with --merge, where the
+            # exports are merged_trajectory.* and the reference)
+            base, name = os.path.join(d, "run%d" % k), "ref"
+            os.makedirs(base, exist_ok=True)
         if fmt == "tum":
-            p = os.path.join(d, name + ".txt")
+            p = os.path.join(base, name + ".txt")
             file_interface.write_tum_trajectory_file(p, traj_from(poses, stamps), confirm_overwrite=False)
         elif fmt == "kitti":
-            p = os.path.join(d, name + ".txt")
+            p = os.path.join(base, name + ".txt")
             file_interface.write_kitti_poses_file(p, traj_from(poses), confirm_overwrite=False)
         else:
             from evo.core import transformations as tfm
-            p = os.path.join(d, name + ".csv")
+            p = os.path.join(base, name + ".csv")
             with open(p, "w") as f:
                 f.write("#timestamp [ns],p_x,p_y,p_z,q_w,q_x,q_y,q_z\n")
                 for ps, t in zip(poses, stamps):
@@ -183,14 +189,18 @@ def impl(case):
             if o["transform"]["propagate"]:
                 argv.append("--propagate_transform")
         argv += ["--save_as_kitti" if case["export"] == "kitti" else "--save_as_tum", "--no_warnings", "--silent"]
+        if o.get("plot"):   # figures are drawn BEFORE the export: drawing must not change what is exported
+            argv += ["--save_plot", os.path.join(d, "figure.pdf"), "--plot_relative_time"]
         outd = os.path.join(d, "out")
         os.makedirs(outd)
         os.chdir(outd)
         from evo.tools.settings import SETTINGS
-        seq0 = SETTINGS.euler_angle_sequence
+        seq0, corr0 = SETTINGS.euler_angle_sequence, SETTINGS.plot_pose_correspondences
         try:
             if o.get("euler_seq"):   # a user setting that concerns the roll/pitch/yaw PLOT only
                 SETTINGS.euler_angle_sequence = o["euler_seq"]
+            if o.get("pose_corr"):   # another plot-only user setting
+                SETTINGS.plot_pose_correspondences = True
             args = main_traj_parser.parser().parse_args(argv)
             main_traj.run(args)
         except SystemExit as e:
@@ -205,7 +215,7 @@ def impl(case):
                     return {"both_refused": type(e).__name__, "argv": argv[1:]}
             return {"exception": type(e).__name__ + ": " + str(e)[:150] + traceback.format_exc()[-400:], "argv": argv[1:]}
         finally:
-            SETTINGS.euler_angle_sequence = seq0
+            SETTINGS.euler_angle_sequence, SETTINGS.plot_pose_correspondences = seq0, corr0
             os.chdir(cwd)
         ext = ".kitti" if case["export"] == "kitti" else ".tum"
         exported = {f[:-len(ext)]: read_export(os.path.join(outd, f), case["export"] == "kitti")
@@ -385,6 +395,12 @@ def gen(ctx):
         if o.get("merge") and (o.get("align") or o.get("correct_scale")) and o.get("n_to_align"):
             del o["n_to_align"]
         cases.append({"kind": "traj", "fmt": fmt, "trajs": trajs, "opts": o, "export": "kitti" if (fmt == "kitti" or i % 3 == 0) else "tum"})
+        if o.get("merge") and with_ref and fmt != "kitti":
+            cases[-1]["same_names"] = True
+        if i % 40 == 9 and fmt != "kitti":
+            o["plot"] = True
+        if with_ref and o.get("plane") and i % 2:
+            o["pose_corr"] = True
     # without processing options the export equals the input
     for fmt in ("tum", "kitti", "euroc"):
         ps = mk_poses(rng, 9, 50.0, 4.5e5)
